@@ -255,6 +255,14 @@ class ExcAnalysis:
                            discharged='arity of the annotated tuple equals the number of targets')
                 elif isinstance(n.value, (ast.Tuple, ast.List)) and len(n.value.elts) == len(tgt.elts):
                     pass
+                elif sum(isinstance(e, ast.Starred) for e in tgt.elts) == 1 and len(tgt.elts) == 2 and \
+                        A.at(fn, n.value, n).truthy == YES:
+                    # `first, *rest = xs` needs one element: a non-emptiness test dominates
+                    ob(n, 'unpack', 'ValueError', f'`{ast.unparse(n)[:60]}`',
+                       discharged='head / rest unpacking of a sequence that a dominating test shows to be non-empty')
+                elif self._unpack_of_returned_tuple(fn, n, len(tgt.elts)):
+                    ob(n, 'unpack', 'ValueError', f'`{ast.unparse(n)[:60]}`',
+                       discharged='every return of the called package function is a tuple display of that length')
                 else:
                     ob(n, 'unpack', 'ValueError', f'unpacking a value of unknown length: `{ast.unparse(n.value)[:60]}`')
             # ---- arithmetic ---------------------------------------------------------------------------------------------
@@ -584,6 +592,17 @@ class ExcAnalysis:
             return
         ob(n, 'subscript', 'IndexError' if rt[0] in ('list', 'str', 'tuple') or idx_is_int else 'LookupError',
            text + ' with an index that is not bounded by a guard')
+
+    def _unpack_of_returned_tuple(self, fn: FuncInfo, n: ast.Assign, arity: int) -> bool:
+        v = n.value
+        if not isinstance(v, ast.Call) or any(isinstance(e, ast.Starred) for e in n.targets[0].elts):
+            return False
+        cs = [c for c in self.cg.env(fn).resolve_call(v) if isinstance(c, FuncInfo)]
+        if len(cs) != 1:
+            return False
+        rets = [r for r in iter_own_nodes(cs[0].node) if isinstance(r, ast.Return)]
+        return bool(rets) and all(isinstance(r.value, ast.Tuple) and len(r.value.elts) == arity and
+                                  not any(isinstance(e, ast.Starred) for e in r.value.elts) for r in rets)
 
     def _getattr_from_table(self, fn: FuncInfo, n: ast.Call) -> Optional[str]:
         """getattr(obj, name): obj has a known class and `name` can only be one of the strings that a constant table of the
